@@ -7,7 +7,7 @@
    checked on every simulated run, not proved. *)
 From Coq Require Import List NArith ZArith Bool Lia.
 From Ynca Require Import Base.Text Model.Line Model.Conn Model.Life.
-From Ynca Require Import Proofs.ConnFacts Proofs.LifeFacts.
+From Ynca Require Import Proofs.ConnFacts Proofs.LifeFacts Proofs.LifeMore.
 From Ynca Require Import Gen.Params.
 Import ListNotations.
 Local Open Scope Z_scope.
@@ -93,3 +93,23 @@ Example C15_nonvacuous :
      LSenderExit; LJoinEnd; LGetCbA true; LGetCb2A true; LCallCb; LFinish] = Some s
   /\ g_disc_calls s = 1%nat /\ l_connected s = false /\ l_rpc s = LDone.
 Proof. eexists. split; [vm_compute; reflexivity|repeat split]. Qed.
+
+(* the reader thread terminates: in EVERY run -- any interleaving with sender, closers and time -- it takes
+   at most ten progress steps of its own from its read loop (nine once it has left the loop); nobody can move
+   it backwards, and with lost_path_progress each of those steps is enabled after a wait with a finite
+   deadline.  (The drain of the queue is bounded by the queue length: Conn.v.) *)
+Theorem C15_reader_terminates_in_bounded_steps :
+  forall cb acts s', lrun (linit cb) acts = Some s' -> (length (filter reader_progress acts) <= 10)%nat.
+Proof. exact (reader_steps_at_most_ten p_join_sender p_join_reader). Qed.
+Print Assumptions C15_reader_terminates_in_bounded_steps.
+
+Theorem C15_reader_progress_measure :
+  forall acts s s', lrun s acts = Some s' ->
+  (length (filter reader_progress acts) + rank (l_rpc s') <= rank (l_rpc s))%nat.
+Proof. exact (reader_steps_bounded p_join_sender p_join_reader). Qed.
+Print Assumptions C15_reader_progress_measure.
+
+Theorem C15_ended_thread_stays_ended :
+  forall acts s s', l_rpc s = LDone -> lrun s acts = Some s' -> l_rpc s' = LDone.
+Proof. exact (done_is_final p_join_sender p_join_reader). Qed.
+Print Assumptions C15_ended_thread_stays_ended.
